@@ -14,7 +14,10 @@ SPEC = {
     "level_note": "Trusted: Coq kernel; the symbolic model of cryptography (keys are equal iff derived the same way; DH commutativity is the only "
                   "equation); model/Noise.v and model/Machine.v mirror flynn/noise state.go and handshake/machine.go, tied by the correspondence: "
                   "real handshakes for every curve x cipher x version setup plus a concurrent second session, key pairing observed with the real "
-                  "noiseutil.CipherState (EncryptDanger with one side, DecryptDanger with every other machine: only the peer's opens it). "
+                  "noiseutil.CipherState (EncryptDanger with one side, DecryptDanger with every other machine: only the peer's opens it); "
+                  "several Machines of one node on ONE shared handshake.Credential, two of them interleaved deterministically inside the window "
+                  "between marshalOutgoing and noise WriteMessage (a hooked noise.DHFunc in the credential's cipher suite holds the first "
+                  "GenerateKeypair until the other handshakes have marshalled), plus a free-running concurrent variant (supporting evidence). "
                   "Hypotheses of the theorem: both nodes announce the public half of their own private key, and one cipher/curve per network.",
     "gens": [],
     "props": ["props/C06.v"],
